@@ -2,14 +2,14 @@ INIT Init
 NEXT Next
 CONSTANTS
   Variant = "design"
-  LenA = 8
-  LenB = 3
+  LenA = 6
+  LenB = 2
   BinSizes = {2, 3}
-  Bpjs = {1, 2, 3, 5}
-  Mfss = {0, 1, 2}
-  KindSet = {"good", "dup", "good_s2", "good_k2"}
+  Bpjs = {1, 2, 4}
+  Mfss = {0, 2}
+  KindSet = {"good", "dup", "good_s2"}
   KwargsSet = {"empty"}
-  UseKeySet = {TRUE}
+  UseKeySet = {FALSE}
   MaxRecs = 2
   Threads = 2
 INVARIANT Inv_C12_Total_NoRaise
